@@ -8,6 +8,8 @@ import (
 	"fmt"
 	"os"
 	"os/exec"
+	"runtime/debug"
+	"runtime/pprof"
 	"sync"
 	"time"
 
@@ -43,6 +45,10 @@ func main() {
 	serve := flag.Bool("serve", false, "worker mode: one task per stdin line")
 	deadline := flag.Int("deadline", 0, "seconds after which unfinished work is abandoned and reported as inconclusive")
 	flag.Parse()
+	// the interpreter allocates a map per frame: collect a little less often, but never let
+	// one of 16 workers outgrow its share of the machine (soft limit: the collector works harder near it)
+	debug.SetGCPercent(200)
+	debug.SetMemoryLimit(2200 << 20)
 	if *serve {
 		serveLoop(*repo, *overlayPath, *root)
 		return
@@ -59,6 +65,11 @@ func main() {
 	}
 
 	if *workers <= 1 {
+		if pp := os.Getenv("SYMX_CPUPROFILE"); pp != "" {
+			f, _ := os.Create(pp)
+			pprof.StartCPUProfile(f)
+			defer pprof.StopCPUProfile()
+		}
 		in, prog := loadInterp(*repo, *overlayPath, *root)
 		var out outFile
 		out.LoadMS = prog.LoadMS
